@@ -22,10 +22,14 @@ package main
 
 import (
 	"encoding/json"
+	"os"
+	"runtime/pprof"
 	"fmt"
 	"sort"
 	"strings"
 	"sync"
+	"sync/atomic"
+	"time"
 
 	"verifh/ev"
 	"verifh/par"
@@ -107,15 +111,15 @@ func bufAns(b BufSpec) Answer { return Answer{Kind: "buf", Buf: &b} }
 
 // scripts enumerates the handler scripts. Every script is implicitly followed
 // by "translate" answers.
-func scripts(size int, thorough bool) [][]Answer {
+func scripts(size int, allowEmpty, extra bool) [][]Answer {
 	var out [][]Answer
 	out = append(out, []Answer{{Kind: "translate"}}, []Answer{{Kind: "pass"}})
 
 	// First replacements that cannot fail and hold the right content.
 	var good []BufSpec
 	good = append(good, BufSpec{Kind: "vslice", Data: "C", FailAt: -1}, BufSpec{Kind: "casslice", Data: "C", FailAt: -1})
-	good = append(good, sourceSpecs("reader", "C", size, thorough, false, true)...)
-	good = append(good, sourceSpecs("chunk", "C", size, thorough, false, true)...)
+	good = append(good, sourceSpecs("reader", "C", size, allowEmpty, false, true)...)
+	good = append(good, sourceSpecs("chunk", "C", size, allowEmpty, false, true)...)
 	for _, g := range good {
 		out = append(out, []Answer{bufAns(g)})
 	}
@@ -123,8 +127,8 @@ func scripts(size int, thorough bool) [][]Answer {
 	// First replacements after which the handler is (or may be) asked again.
 	var again []BufSpec
 	again = append(again, BufSpec{Kind: "error", FailAt: -1})
-	again = append(again, sourceSpecs("reader", "C", size, thorough, true, false)...)
-	again = append(again, sourceSpecs("chunk", "C", size, thorough, true, false)...)
+	again = append(again, sourceSpecs("reader", "C", size, allowEmpty, true, false)...)
+	again = append(again, sourceSpecs("chunk", "C", size, allowEmpty, true, false)...)
 	for _, dv := range []string{"W", "Wm", "S", "L"} {
 		n := size
 		if dv == "S" {
@@ -149,7 +153,7 @@ func scripts(size int, thorough bool) [][]Answer {
 		bufAns(BufSpec{Kind: "reader", Data: "C", Chunks: []int{1, 2}, FailAt: 3}), // third failure, then translate
 		bufAns(BufSpec{Kind: "error", FailAt: -1}),
 	}
-	if thorough {
+	if extra {
 		second = append(second,
 			bufAns(BufSpec{Kind: "casslice", Data: "C", FailAt: -1}),
 			bufAns(BufSpec{Kind: "chunk", Data: "C", Chunks: []int{3}, FailAt: 3}),
@@ -161,7 +165,7 @@ func scripts(size int, thorough bool) [][]Answer {
 	for _, a := range again {
 		for _, s := range second {
 			sc := []Answer{bufAns(a), s}
-			if thorough && s.Kind == "buf" && (s.Buf.FailAt >= 0 || s.Buf.Kind == "error" || s.Buf.Data != "C") {
+			if extra && s.Kind == "buf" && (s.Buf.FailAt >= 0 || s.Buf.Kind == "error" || s.Buf.Data != "C") {
 				// third answer: a good buffer instead of the implicit translate
 				out = append(out, sc, []Answer{bufAns(a), s, bufAns(BufSpec{Kind: "chunk", Data: "C", Chunks: []int{2, 1, size - 3}, FailAt: -1})})
 				continue
@@ -213,8 +217,9 @@ func consumers(size int, thorough bool) []Consumer {
 
 type family struct {
 	name  string
+	light bool
 	desc  string
-	origs func(size int, thorough bool) []BufSpec
+	origs func(size int, allowEmpty bool) []BufSpec
 }
 
 func wrapAll(specs []BufSpec, wrap string) []BufSpec {
@@ -234,18 +239,88 @@ func streamOrigs(size int, allowEmpty bool) []BufSpec {
 }
 
 var families = []family{
-	{"plain", "CAS buffer from reader / from chunk reader", func(size int, th bool) []BufSpec { return streamOrigs(size, th) }},
-	{"clone", "one stream-clone (CloneStream) of a CAS reader / chunk reader buffer carries the handler; the other clone is discarded or read with ToByteSlice concurrently", func(size int, th bool) []BufSpec {
+	{name: "plain", desc: "CAS buffer from reader / from chunk reader", origs: func(size int, th bool) []BufSpec { return streamOrigs(size, th) }},
+	{"clone", true, "one stream-clone (CloneStream) of a CAS reader / chunk reader buffer carries the handler; the other clone is discarded or read with ToByteSlice concurrently", func(size int, th bool) []BufSpec {
 		return append(wrapAll(streamOrigs(size, th), "clone-discard"), wrapAll(streamOrigs(size, th), "clone-bytes")...)
 	}},
-	{"task", "CAS reader / chunk reader buffer with a trivial background task (WithTask returning nil)", func(size int, th bool) []BufSpec { return wrapAll(streamOrigs(size, th), "task") }},
-	{"errbuf", "error buffer (NewBufferFromError): the error is offered by WithErrorHandler itself", func(size int, th bool) []BufSpec {
+	{"task", false, "CAS reader / chunk reader buffer with a trivial background task (WithTask returning nil)", func(size int, th bool) []BufSpec { return wrapAll(streamOrigs(size, th), "task") }},
+	{"errbuf", false, "error buffer (NewBufferFromError): the error is offered by WithErrorHandler itself", func(size int, th bool) []BufSpec {
 		return []BufSpec{{Kind: "error", FailAt: -1}}
 	}},
-	{"nested", "a second WithErrorHandler below the scripted one (inner handler translates / passes every error)", func(size int, th bool) []BufSpec {
+	{"nested", true, "a second WithErrorHandler below the scripted one (inner handler translates / passes every error)", func(size int, th bool) []BufSpec {
 		o := streamOrigs(size, false)
 		return append(wrapAll(o, "nested-translate"), wrapAll(o, "nested-pass")...)
 	}},
+}
+
+func describeAny(x any) string {
+	b, _ := json.Marshal(x)
+	return string(b)
+}
+
+// coreChunking: one piece, or a first piece of one byte followed by the rest.
+func coreChunking(ch []int) bool {
+	for _, l := range ch {
+		if l == 0 {
+			return false
+		}
+	}
+	return len(ch) <= 1 || (len(ch) == 2 && ch[0] == 1)
+}
+
+// coreSpec selects the boundary / representative sources: failure at 0, 1,
+// 3, size or never; chunked as one piece or 1+rest.
+func coreSpec(b BufSpec, size int) bool {
+	if b.Kind != "reader" && b.Kind != "chunk" {
+		return true
+	}
+	if b.Data != "C" {
+		return true
+	}
+	switch b.FailAt {
+	case -1, 0, 1, 3, size:
+	default:
+		return false
+	}
+	return coreChunking(b.Chunks)
+}
+
+// coreScript: all replacement buffers are core; the second answer (if any) is a
+// translated error, a validated byte slice or a reader that fails again.
+func coreScript(sc []Answer, size int) bool {
+	for i, a := range sc {
+		if a.Kind != "buf" {
+			if i > 0 && a.Kind == "pass" {
+				return false
+			}
+			continue
+		}
+		if !coreSpec(*a.Buf, size) {
+			return false
+		}
+		if i > 0 && !(a.Buf.Kind == "vslice" || (a.Buf.Kind == "reader" && a.Buf.FailAt >= 0)) {
+			return false
+		}
+	}
+	return len(sc) <= 2
+}
+
+func coreConsumer(c Consumer, size int) bool {
+	switch c.Op {
+	case "ReadAt":
+		return (c.Off == 1 && c.Len == 2) || (c.Off == 0 && c.Len == size+1) || (c.Off == size && c.Len == 1) || (c.Off == 3 && c.Len == 0)
+	case "ToReader":
+		return c.StopAfter == -1 || (c.ReadSize == 2 && c.StopAfter <= 1)
+	case "ToChunkReader":
+		if c.Off < 0 || c.Off > size {
+			return c.StopAfter == -1 && c.Off > size
+		}
+		if c.StopAfter == -1 {
+			return (c.Off == 0 && c.Max == 1) || (c.Off == 2 && c.Max == 2) || (c.Off == 3 && c.Max == size+1) || (c.Off == size && c.Max == 2)
+		}
+		return c.Off == 2 && c.Max == 2 && c.StopAfter <= 1
+	}
+	return true
 }
 
 func describe(c Case) string {
@@ -255,7 +330,13 @@ func describe(c Case) string {
 
 func main() {
 	r := ev.Start("C16")
-	r.Rule("venum: every (original buffer kind x chunking into <=3 pieces x failure position j in [0,size]) x (handler script of <=2 (thorough 3) scripted answers: translated error | same error | replacement buffer of every kind/chunking/second failure position/wrong content) x (consumer incl. every ReadAt(off,len), ToChunkReader(off,max), read size and early Close point); non-trivial = OnError was invoked at least once in the case")
+	if pf := os.Getenv("C16_PROF"); pf != "" {
+		f, _ := os.Create(pf)
+		pprof.StartCPUProfile(f)
+		defer pprof.StopCPUProfile()
+		prof = true
+	}
+	r.Rule("venum: (original buffer kind x chunking into <=3 pieces x failure position j in [0,size] or none) x (handler script of <=2 (thorough 3) scripted answers: translated error | same error | replacement buffer of every kind/chunking/second failure position/wrong content) x (consumer incl. every ReadAt(off,len), ToChunkReader(off,max), read size and early Close point). quick = every original x core scripts x every consumer UNION core originals x every script x core consumers; thorough = the full product plus the same union with empty pieces and for a 4-byte object. non-trivial = OnError was invoked at least once in the case")
 	r.Assume("the handler only supplies replacement buffers created for the SAME digest; NewValidatedBufferFromByteSlice replacements always hold the right content (that constructor declares the data valid, so a wrong one is the handler's fault); wrong-content replacements are CAS buffers (byte slice / reader / chunk reader)")
 	r.Assume("'each byte exactly once or an error' is read as: successful completion => exactly content[off:]; when every buffer involved holds the right content, the bytes delivered before an error form a prefix of content[off:] and the only error the consumer may see is the one the handler returned (a data-integrity error there means a duplicated/skipped range)")
 	r.Assume("with a wrong-content replacement only 'no successful completion with different bytes' is demanded; bytes already streamed before the mismatch is detected are not judged (ErrorHandler documentation: checksum mismatches on streams cannot be undone)")
@@ -280,37 +361,95 @@ func main() {
 	}
 
 	thorough := r.Thorough()
-	contentNames := ev.Pick(r, []string{"P5"}, []string{"P5", "P4"})
 
 	for _, fam := range families {
 		if !r.Want(fam.name) {
 			continue
 		}
+		// The space of a family is a union of blocks
+		//   (content, originals, scripts, consumers);
+		// a (content, original, script) triple that occurs in several blocks is
+		// run once, with the largest consumer set.
 		type work struct {
 			content string
 			orig    BufSpec
 			script  []Answer
+			allCons bool
 		}
 		var ws []work
-		var nOrig, nScripts, nCons []string
-		consBy := map[string][]Consumer{}
-		for _, cn := range contentNames {
-			size := len(contents[cn])
-			origs := fam.origs(size, thorough)
-			scs := scripts(size, thorough)
-			consBy[cn] = consumers(size, thorough)
-			nOrig = append(nOrig, fmt.Sprint(len(origs)))
-			nScripts = append(nScripts, fmt.Sprint(len(scs)))
-			nCons = append(nCons, fmt.Sprint(len(consBy[cn])))
+		index := map[string]int{}
+		var blocks []string
+		addBlock := func(label, cn string, origs []BufSpec, scs [][]Answer, allCons bool) {
+			n := 0
 			for _, o := range origs {
-				for _, s := range scs {
-					ws = append(ws, work{cn, o, s})
+				ok := describeAny(o)
+				for _, sc := range scs {
+					k := cn + "|" + ok + "|" + describeAny(sc)
+					if at, dup := index[k]; dup {
+						if allCons && !ws[at].allCons {
+							ws[at].allCons = true
+							n++
+						}
+						continue
+					}
+					index[k] = len(ws)
+					ws = append(ws, work{cn, o, sc, allCons})
+					n++
+				}
+			}
+			blocks = append(blocks, fmt.Sprintf("%s[%s: %d originals x %d scripts x %s consumers; %d new pairs]", label, cn, len(origs), len(scs), map[bool]string{true: "all", false: "core"}[allCons], n))
+		}
+		consAll := map[string][]Consumer{}
+		consCore := map[string][]Consumer{}
+		for cn, c := range contents {
+			consAll[cn] = consumers(len(c), thorough)
+			for _, co := range consAll[cn] {
+				if coreConsumer(co, len(c)) {
+					consCore[cn] = append(consCore[cn], co)
 				}
 			}
 		}
-		sub := r.NewSub(fam.name, "venum", fmt.Sprintf("%s; content %s; %s originals (kind x chunking<=3%s x failure position 0..size | none) x %s handler scripts x %s consumers",
-			fam.desc, strings.Join(contentNames, ","), strings.Join(nOrig, "+"), map[bool]string{true: " incl. empty pieces", false: ""}[thorough && fam.name != "nested"], strings.Join(nScripts, "+"), strings.Join(nCons, "+")))
+		union := func(cn string, allowEmpty, extra bool) {
+			size := len(contents[cn])
+			origs := fam.origs(size, allowEmpty)
+			scs := scripts(size, allowEmpty, extra)
+			var coreO []BufSpec
+			for _, o := range origs {
+				if coreSpec(o, size) {
+					coreO = append(coreO, o)
+				}
+			}
+			var coreS [][]Answer
+			for _, sc := range scs {
+				if coreScript(sc, size) {
+					coreS = append(coreS, sc)
+				}
+			}
+			tag := map[bool]string{true: "+empty-pieces", false: ""}[allowEmpty]
+			if fam.light && !thorough {
+				// Families that only vary what lies below the original buffer
+				// (and are slow: goroutine hand-offs): quick tier pairs every
+				// original with the core consumers and the core originals with
+				// every consumer; thorough runs the full product.
+				addBlock("core-original", cn, coreO, coreS, true)
+				addBlock("every-original", cn, origs, coreS, false)
+				return
+			}
+			addBlock("every-original"+tag, cn, origs, coreS, true)
+			addBlock("every-script"+tag, cn, coreO, scs, false)
+		}
+		if !thorough {
+			union("P5", false, false)
+		} else {
+			size := len(contents["P5"])
+			addBlock("full-product", "P5", fam.origs(size, false), scripts(size, false, false), true)
+			union("P5", true, true)
+			union("P4", false, true)
+		}
+		sub := r.NewSub(fam.name, "venum", fam.desc+"; space = union of blocks: "+strings.Join(blocks, " + ")+
+			fmt.Sprintf("; all consumers = %d (P5), core consumers = %d (P5); core = boundary/representative failure positions and chunkings, see coreSpec/coreScript/coreConsumer", len(consAll["P5"]), len(consCore["P5"])))
 		done := sub.Timer()
+		wd := startWatchdog(r, fam.name)
 
 		type acc struct {
 			evals, nontriv, stitched int64
@@ -326,9 +465,16 @@ func main() {
 		par.For(len(ws), func(i int) {
 			w := ws[i]
 			local := acc{outcomes: map[string]struct{}{}}
-			cons := consBy[w.content]
+			cons := consCore[w.content]
+			if w.allCons {
+				cons = consAll[w.content]
+			}
+			slot := wd.begin()
+			defer wd.end(slot)
 			for ci, co := range cons {
 				c := Case{Content: w.content, Orig: w.orig, Script: w.script, Cons: co}
+				slot.cur.Store(&c)
+				slot.since.Store(time.Now().UnixNano())
 				res := runCase(c)
 				local.evals++
 				if res.nontrivial {
@@ -359,6 +505,7 @@ func main() {
 			}
 			mu.Unlock()
 		})
+		wd.stop()
 		var sk []int
 		for k := range samples {
 			sk = append(sk, k)
@@ -393,5 +540,76 @@ func main() {
 			r.Note("plain outcome classes: " + strings.Join(cl, "; "))
 		}
 	}
+	if prof {
+		pprof.StopCPUProfile()
+	}
 	r.Finish()
 }
+
+var prof bool
+
+// ---- liveness watchdog ----------------------------------------------------------
+
+// A consumer call that never returns (e.g. a stream clone waiting for a reader
+// that nobody closes) would hang the check. The watchdog reports a case that
+// has been running for hangAfter (each case takes microseconds) as a
+// violation and ends the run. It is a liveness detector only; no outcome of a
+// terminating case depends on time.
+const hangAfter = 180 * time.Second
+
+type watchdog struct {
+	mu      sync.Mutex
+	running map[*wdSlot]struct{}
+	quit    chan struct{}
+}
+
+type wdSlot struct {
+	cur   atomic.Pointer[Case]
+	since atomic.Int64
+}
+
+func startWatchdog(r *ev.Run, sub string) *watchdog {
+	w := &watchdog{running: map[*wdSlot]struct{}{}, quit: make(chan struct{})}
+	go func() {
+		t := time.NewTicker(5 * time.Second)
+		defer t.Stop()
+		for {
+			select {
+			case <-w.quit:
+				return
+			case <-t.C:
+			}
+			w.mu.Lock()
+			var stuck *Case
+			now := time.Now().UnixNano()
+			for e := range w.running {
+				if c := e.cur.Load(); c != nil && now-e.since.Load() > int64(hangAfter) {
+					stuck = c
+				}
+			}
+			w.mu.Unlock()
+			if stuck != nil {
+				r.Violate(ev.Violation{Signature: "hang:" + stuck.Cons.Op + ":" + stuck.Orig.Kind + "/" + stuck.Orig.Wrap, Sub: sub,
+					Message: "the consumer call did not return within " + hangAfter.String() + " (deadlock); case: " + describe(*stuck), Case: *stuck})
+				r.Finish()
+			}
+		}
+	}()
+	return w
+}
+
+func (w *watchdog) begin() *wdSlot {
+	s := &wdSlot{}
+	w.mu.Lock()
+	w.running[s] = struct{}{}
+	w.mu.Unlock()
+	return s
+}
+
+func (w *watchdog) end(s *wdSlot) {
+	w.mu.Lock()
+	delete(w.running, s)
+	w.mu.Unlock()
+}
+
+func (w *watchdog) stop() { close(w.quit) }
